@@ -44,10 +44,8 @@ pub fn run(prop: &str, tier: Tier, seed: i64, replay: Option<&str>) -> i32 {
                 ck.pumping_stage();
             }
             ck.corpus_stage();
-            if !(prop == "C16" && tier == Tier::Quick) {
-                // (the serde monitor is ten times as expensive per string: thorough tier only there)
-                ck.scalar_position_stage();
-            }
+            // (the serde monitor is ten times as expensive per string: ASCII only in C16's quick tier)
+            ck.scalar_position_stage(prop == "C16" && tier == Tier::Quick);
             if matches!(prop, "C04" | "C06" | "C10") {
                 builder_stages(&mut ck, true);
             }
@@ -589,11 +587,14 @@ impl Check {
 
     /// Every Unicode scalar value, raw and percent-encoded in both hex cases, in each of the five
     /// component positions of a parsed string (and in a typed name).
-    pub fn scalar_position_stage(&mut self) {
+    pub fn scalar_position_stage(&mut self, ascii_only: bool) {
         let se = StringEval { prop: self.prop, mon: monitors_for(self.prop) };
         let t0 = Instant::now();
         let frames: [(&str, &str); 6] = [("pkg:t/", "/n"), ("pkg:t/x", ""), ("pkg:t/n@1", ""), ("pkg:t/n?k=v", ""), ("pkg:t/n#s/", "/t"), ("pkg:nuget/A", "")];
         let mut a = sweeps::for_all_scalars(|c, acc| {
+            if ascii_only && !c.is_ascii() {
+                return;
+            }
             let mut buf = [0u8; 4];
             let bytes = c.encode_utf8(&mut buf).as_bytes();
             let upper: String = bytes.iter().map(|b| format!("%{:02X}", b)).collect();
@@ -615,7 +616,7 @@ impl Check {
             }
         });
         a.samples.truncate(2);
-        self.stages.push(json!({"engine": "E-scalar-positions", "scalar_values": sweeps::N_SCALARS, "frames": frames.iter().map(|(p, s)| format!("{p}<c>{s}")).collect::<Vec<_>>(), "spellings": ["raw", "%XX", "%xx"], "strings": a.evals, "accepted": a.accepted, "wall_s": t0.elapsed().as_secs_f64()}));
+        self.stages.push(json!({"engine": "E-scalar-positions", "scalar_values": sweeps::N_SCALARS, "frames": frames.iter().map(|(p, s)| format!("{p}<c>{s}")).collect::<Vec<_>>(), "spellings": ["raw", "%XX", "%xx"], "ascii_only": ascii_only, "strings": a.evals, "accepted": a.accepted, "wall_s": t0.elapsed().as_secs_f64()}));
         self.bounds.push(json!({"scalar_position_strings": a.evals}));
         self.total.merge(a);
     }
